@@ -37,10 +37,14 @@ impl TxIds {
 }
 
 pub struct Exec {
-    pub lvl: PriceLevel,
-    pub generator: UuidGenerator,
+    pub lvl: Arc<PriceLevel>,
+    pub generator: Arc<UuidGenerator>,
+    /// E-conc: the threads' programs of the case being assembled
+    pub cprog: Vec<Vec<crate::conc::COp>>,
+    pub last_prog: Vec<Vec<crate::conc::COp>>,
     pub txids: TxIds,
     pub out: Vec<(String, String)>,
+    pub hung: bool,
     pub queue: OrderQueue,
     /// C11: a level restored from a snapshot of `lvl`, fed the same continuation
     pub fork: Option<(PriceLevel, UuidGenerator)>,
@@ -112,10 +116,13 @@ pub fn show_state(l: &PriceLevel) -> String {
 impl Exec {
     pub fn new() -> Self {
         Exec {
-            lvl: PriceLevel::new(0),
-            generator: UuidGenerator::new(Uuid::from_u128(NS)),
+            lvl: Arc::new(PriceLevel::new(0)),
+            generator: Arc::new(UuidGenerator::new(Uuid::from_u128(NS))),
+            cprog: Vec::new(),
+            last_prog: Vec::new(),
             txids: TxIds::new(),
             out: Vec::new(),
+            hung: false,
             queue: OrderQueue::new(),
             fork: None,
             price: 0,
@@ -186,8 +193,9 @@ impl Exec {
             }
             ["new", p] => {
                 let Ok(p) = p.parse::<u64>() else { return false };
-                self.lvl = PriceLevel::new(p);
-                self.generator = UuidGenerator::new(Uuid::from_u128(NS));
+                self.lvl = Arc::new(PriceLevel::new(p));
+                self.generator = Arc::new(UuidGenerator::new(Uuid::from_u128(NS)));
+                self.cprog.clear();
                 self.price = p;
                 self.fork = None;
                 self.issued = 0;
@@ -276,13 +284,94 @@ impl Exec {
                 self.emit(format!("judge.C07 {} {} {} {} {}", self.price, pre, post, outtok, rest.join(" ")), "J C07 ok");
                 self.judge_stats();
             }
+            ["conc.thread", k, ops] => {
+                let Ok(k) = k.parse::<usize>() else { return false };
+                let mut prog = Vec::new();
+                for o in ops.split(';') {
+                    let Some(c) = crate::conc::parse_cop(&o.replace('~', " ")) else { return false };
+                    prog.push(c);
+                }
+                if k < self.cprog.len() { self.cprog[k] = prog } else { self.cprog.push(prog) }
+                self.emit(line, "conc.thread");
+            }
+            ["conc.run", rest @ ..] => {
+                let want: Vec<usize> = rest.first().map(|s| s.split(',').filter_map(|x| x.parse().ok()).collect()).unwrap_or_default();
+                let progs = std::mem::take(&mut self.cprog);
+                self.last_prog = progs.clone();
+                let pre_listing = listing(&self.lvl);
+                let budget = std::env::var("VERIF_STEP_BUDGET").ok().and_then(|s| s.parse().ok()).unwrap_or(20_000);
+                let r = crate::conc::run_conc(self.lvl.clone(), self.generator.clone(), progs, &want, &mut self.txids, budget);
+                let sched: Vec<String> = r.schedule.iter().map(|x| x.to_string()).collect();
+                let rets: Vec<String> = r.rets.iter().enumerate().map(|(i, v)| format!("t{}:{}", i, v.join("&"))).collect();
+                let line_in = format!("conc.run {}", sched.join(",")).trim_end().to_string();
+                if r.hung {
+                    self.emit(line_in, "TIMEOUT");
+                    self.hung = true;
+                } else {
+                    // what the observer counted from the return values (for the judges that follow)
+                    for (ti, v) in r.rets.iter().enumerate() {
+                        for (oi, s) in v.iter().enumerate() {
+                            let kind = self.last_prog.get(ti).and_then(|p| p.get(oi));
+                            match kind {
+                                Some(crate::conc::COp::Add(_)) => self.n_adds += 1,
+                                Some(crate::conc::COp::Cancel(_)) => {
+                                    if s.starts_with("ok=") && s != "ok=-" {
+                                        self.n_removed += 1;
+                                    }
+                                }
+                                Some(crate::conc::COp::Match(_, _)) => {
+                                    if let Some(txs) = s.strip_prefix("txs=[") {
+                                        let inner = txs.split(']').next().unwrap_or("");
+                                        for t in inner.split(',').filter(|x| !x.is_empty()) {
+                                            let f: Vec<&str> = t.split(':').collect();
+                                            if f.len() == 6 {
+                                                self.issued += 1;
+                                                self.sum_exec += f[4].parse::<u128>().unwrap_or(0);
+                                            }
+                                        }
+                                    }
+                                }
+                                Some(crate::conc::COp::Next) => self.issued += 1,
+                                _ => {}
+                            }
+                        }
+                    }
+                    self.emit(
+                        line_in,
+                        format!(
+                            "conc.run sched={} trace={} rets={} obs={} done=1",
+                            sched.join(","),
+                            r.trace.join(";"),
+                            rets.join("#"),
+                            r.obs.join(",")
+                        ),
+                    );
+                    let post_listing = listing(&self.lvl);
+                    let tr = r.trace.join(";");
+                    let rets_s = rets.join("#");
+                    self.emit(
+                        format!(
+                            "judge.C03 {pre_listing} {post_listing} {rets_s} {} {} {}",
+                            self.lvl.visible_quantity(),
+                            self.lvl.hidden_quantity(),
+                            self.lvl.order_count()
+                        ),
+                        "J C03 ok",
+                    );
+                    self.emit(format!("judge.C08 {tr}"), "J C08 ok");
+                    self.emit(format!("judge.C12 {}", r.obs.join(",")), "J C12 ok");
+                    self.emit(format!("judge.C13 {tr} {rets_s}"), "J C13 ok");
+                    self.emit(format!("judge.C14 {tr} {rets_s}"), "J C14 ok");
+                    self.judge_stats();
+                }
+            }
             ["rebuild", kind] | ["fork", kind] => {
                 let is_fork = t[0] == "fork";
                 let pre = show_state_content(&self.lvl);
                 let snap = self.lvl.snapshot();
                 let ids: Vec<OrderId> = snap.orders.iter().map(|o| o.id()).collect();
                 let raw_listing: Vec<Order> = snap.orders.iter().map(|a| **a).collect();
-                let lvl = &self.lvl;
+                let lvl: &PriceLevel = &self.lvl;
                 let res = catch_unwind(AssertUnwindSafe(|| -> Result<PriceLevel, String> {
                     match *kind {
                         "snapshot" => PriceLevel::from_snapshot(snap.clone()).map_err(|e| e.to_string()),
@@ -325,7 +414,7 @@ impl Exec {
                             }
                             self.emit(line_in, "fork ok");
                         } else {
-                            self.lvl = newl;
+                            self.lvl = Arc::new(newl);
                             // statistics start afresh in a rebuilt level
                             self.n_removed = 0;
                             self.sum_exec = 0;
@@ -392,7 +481,7 @@ impl Exec {
                         "package" => { let _ = self.lvl.snapshot_package(); }
                         "json" => { let _ = self.lvl.snapshot_to_json(); }
                         "display" => { let _ = self.lvl.to_string(); }
-                        "serde" => { let _ = serde_json::to_string(&self.lvl); }
+                        "serde" => { let _ = serde_json::to_string(&*self.lvl); }
                         "stats" => { let st = self.lvl.stats(); let _ = (st.to_string(), st.average_execution_price(), st.average_waiting_time(), st.time_since_last_execution()); }
                         "list" => { let _ = self.lvl.iter_orders(); }
                         _ => { let _ = (self.lvl.price(), self.lvl.visible_quantity(), self.lvl.hidden_quantity(), self.lvl.total_quantity(), self.lvl.order_count()); }
